@@ -64,3 +64,33 @@ func verifSetErr(hc *halfConn, err error) {
 func VerifHalfConns(c *Conn) (in, out uintptr) {
 	return uintptr(unsafe.Pointer(&c.in)), uintptr(unsafe.Pointer(&c.out))
 }
+
+// Peer fault points: they let a harness make THIS endpoint misbehave when it plays the adversary
+// towards the endpoint under test (which always runs unmodified paths).  VerifFault is nil unless armed;
+// it receives the connection, the site name and the honest bytes, and returns the bytes to use
+// (nil at site "ske" means: omit the ServerKeyExchange message).
+var VerifFault func(c *Conn, site string, honest []byte) (replacement []byte, active bool)
+
+func verifFaultSKE(c *Conn, skx *serverKeyExchangeMsg) *serverKeyExchangeMsg {
+	if VerifFault == nil || skx == nil {
+		return skx
+	}
+	b, active := VerifFault(c, "ske", skx.key)
+	if !active {
+		return skx
+	}
+	if b == nil {
+		return nil
+	}
+	return &serverKeyExchangeMsg{key: b}
+}
+
+func verifFaultBytes(c *Conn, site string, b []byte) []byte {
+	if VerifFault == nil {
+		return b
+	}
+	if r, active := VerifFault(c, site, b); active {
+		return r
+	}
+	return b
+}
